@@ -109,7 +109,7 @@ func TestVerifC12BalancerRanking(t *testing.T) {
 			groups = append(groups, g)
 			hashes = append(hashes, g.Hash)
 			seenHash[g.Hash] = true
-			dirLabels = append(dirLabels, "directed:precomputed-pair")
+			dirLabels = append(dirLabels, "directed:precomputed-pair-for-balancer-hash")
 		}
 		nh := rapid.IntRange(1, 3).Draw(t, "nhashes")
 		for j := len(hashes); j < nh; j++ {
